@@ -179,15 +179,16 @@ func run(c *mon.Ctx) {
 	}
 	c.Set("unknown_code_types", unknown)
 
-	k.checkDeclared()      // (a) (b)
-	k.checkCodecs()        // (d) codec arms, round trips of declared codes through message codecs
-	k.emitDeclared()       // verdicts on declared constants, consequences folded into the root cause
-	k.checkUndeclaredInt() // (c) numeric domains
-	k.checkUndeclaredStr() // (c) string enums
-	k.checkOpcodes()       // (d)
-	k.checkVersions()      // (e)
-	k.checkFlags()         // (f)
-	k.checkCapabilities()  // (g)
+	k.checkDeclared()       // (a) (b)
+	k.checkCodecs()         // (d) codec arms, round trips of declared codes through message codecs
+	k.emitDeclared()        // verdicts on declared constants, consequences folded into the root cause
+	k.checkUndeclaredInt()  // (c) numeric domains
+	k.checkUndeclaredStr()  // (c) string enums
+	k.checkOpcodes()        // (d)
+	k.checkVersions()       // (e)
+	k.checkFlags()          // (f)
+	k.checkCapabilities()   // (g)
+	k.checkReturnedSlices() // (e) last: it tampers with what the library hands out
 
 	c.Set("per_type", k.perType)
 	c.Set("spec_codes_not_declared_not_judged", specCodesNotJudged)
@@ -236,6 +237,7 @@ func (k *checker) checkDeclared() {
 		k.mu.Unlock()
 
 		printed := map[string]constEntry{}
+		var printedList []printedConst
 		for _, e := range ti.Consts {
 			e := e
 			f := k.finding(e)
@@ -317,6 +319,7 @@ func (k *checker) checkDeclared() {
 				}
 				c.Eval(1)
 				f.observed["String"] = s
+				printedList = append(printedList, printedConst{e, s})
 				if strings.Contains(s, "?") {
 					k.viol(tn+"/"+e.label()+"/String", map[string]interface{}{
 						"type": tn, "const": e, "printed": s, "problem": "declared constant prints with the '?' fallback name",
@@ -332,6 +335,9 @@ func (k *checker) checkDeclared() {
 			if c.WantSample() && (!valid || e.Name == "OpCodeQuery" || e.Name == "SchemaChangeTargetFunction") {
 				c.Sample(map[string]interface{}{"kind": "declared", "type": tn, "const": e.Name, "value": e.valueText(), "observed": f.observed})
 			}
+		}
+		if len(printedList) > 0 {
+			k.checkNameParts(tn, printedList)
 		}
 	}
 }
@@ -562,6 +568,7 @@ func (k *checker) checkFlags() {
 		k.mu.Unlock()
 		seen := map[uint64]constEntry{}
 		printed := map[string]constEntry{}
+		var printedList []printedConst
 		var all uint64
 		for _, e := range ti.Consts {
 			c.Distinct("flag/" + tn + "/" + e.Name)
@@ -600,6 +607,7 @@ func (k *checker) checkFlags() {
 				k.viol(tn+"/"+e.Name+"/String", det)
 			}
 			printed[s] = e
+			printedList = append(printedList, printedConst{e, s})
 			// Add / Remove / Contains on the real methods: observed and counted, not judged (the
 			// property speaks about the declared constants, not about the set algebra)
 			for _, o := range ti.Consts {
@@ -610,6 +618,7 @@ func (k *checker) checkFlags() {
 				}
 			}
 		}
+		k.checkNameParts(tn, printedList)
 		k.mu.Lock()
 		ev["union_of_declared_bits"] = hexN(all, ops.bits)
 		k.mu.Unlock()
